@@ -21,7 +21,7 @@ Definition D_USE_METHOD : N := 30.      Definition D_ENUM : N := 31.
 Definition D_UPDATE_SHAPE : N := 32.    Definition D_UNMODELLED : N := 99.
 
 (* ---------------- state ---------------- *)
-Record bst := { b_tab : table; b_names : list rstr; b_seen : list N }.
+Record bst := { b_tab : table; b_names : list rstr; b_seen : list N; b_types : list ty }.
 Definition M (A : Type) := bst -> gres (A * bst).
 Definition ret {A} (a : A) : M A := fun s => GOk (a, s).
 Definition fail {A} (c : N) : M A := fun _ => GDiag c.
@@ -58,13 +58,19 @@ Section gen.
     end.
   Definition set_dirty (d : bool) (m : gmethod) : gmethod :=
     {| g_name := g_name m; g_src := g_src m; g_tgt := g_tgt m; g_explicit := g_explicit m; g_dirty := d;
-       g_update := g_update m; g_conf := g_conf m; g_origin := g_origin m; g_body := g_body m |}.
-  Definition set_body (b : body) (m : gmethod) : gmethod :=
+       g_update := g_update m; g_conf := g_conf m; g_origin := g_origin m; g_body := g_body m; g_types := g_types m |}.
+  Definition set_body (b : body) (ts : list ty) (m : gmethod) : gmethod :=
     {| g_name := g_name m; g_src := g_src m; g_tgt := g_tgt m; g_explicit := g_explicit m; g_dirty := g_dirty m;
-       g_update := g_update m; g_conf := g_conf m; g_origin := g_origin m; g_body := Some b |}.
+       g_update := g_update m; g_conf := g_conf m; g_origin := g_origin m; g_body := Some b; g_types := ts |}.
+
+  (* the emitted code renders type t here (variable declaration, make, cast, zero literal) *)
+  Definition note_ty (t : ty) : M unit :=
+    fun s => GOk (tt, {| b_tab := b_tab s; b_names := b_names s; b_seen := b_seen s; b_types := t :: b_types s |}).
+  (* xtype.ZeroValue renders a type only for structs and arrays *)
+  Definition zero_renders (t : ty) : bool := f_Struct e t || f_ListFixed e t.
 
   Definition mark_dirty (id : N) : M unit :=
-    fun s => GOk (tt, {| b_tab := update_nth (N.to_nat id) (set_dirty true) (b_tab s); b_names := b_names s; b_seen := b_seen s |}).
+    fun s => GOk (tt, {| b_tab := update_nth (N.to_nat id) (set_dirty true) (b_tab s); b_names := b_names s; b_seen := b_seen s; b_types := b_types s |}).
 
   (* ---- namer.Name on the file-level namer ---- *)
   Definition dec (n : N) : rstr := s2r (NilEmpty.string_of_uint (N.to_uint n)).
@@ -216,7 +222,7 @@ Section gen.
         else false in
       let tab' := if seen then update_nth (N.to_nat (bc_id ctx)) (set_dirty true) (b_tab st) else b_tab st in
       let seen' := match named_id with Some id => id :: b_seen st | None => b_seen st end in
-      GOk (create, {| b_tab := tab'; b_names := b_names st; b_seen := seen' |}).
+      GOk (create, {| b_tab := tab'; b_names := b_names st; b_seen := seen'; b_types := b_types st |}).
 
   Definition first_rule (hm : ty -> ty -> bool) (conf : mconf) (s t : ty) : option N :=
     find (fun r => x_matches r e hm conf s t) x_build_steps.
@@ -274,10 +280,10 @@ Section gen.
         let id := N.of_nat (List.length (b_tab st)) in
         let origin := match nth_error (b_tab st) (N.to_nat (bc_id ctx)) with Some m => bc_id ctx :: g_origin m | None => [bc_id ctx] end in
         let m := {| g_name := name; g_src := s; g_tgt := t; g_explicit := false; g_dirty := false; g_update := false;
-                    g_conf := sub_conf; g_origin := origin; g_body := None |} in
-        let st1 := {| b_tab := b_tab st ++ [m]; b_names := name :: b_names st; b_seen := [] |} in
+                    g_conf := sub_conf; g_origin := origin; g_body := None; g_types := [] |} in
+        let st1 := {| b_tab := b_tab st ++ [m]; b_names := name :: b_names st; b_seen := []; b_types := [] |} in
         match build_method f id st1 with
-        | GOk (_, st2) => GOk (PCall id, {| b_tab := b_tab st2; b_names := b_names st2; b_seen := b_seen st |})
+        | GOk (_, st2) => GOk (PCall id, {| b_tab := b_tab st2; b_names := b_names st2; b_seen := b_seen st; b_types := b_types st |})
         | GDiag c => GDiag c | GPanic p => GPanic p | GFuel => GFuel
         end
     end
@@ -290,7 +296,7 @@ Section gen.
       | None => GPanic 1
       | Some m =>
         let ctx := {| bc_id := id; bc_conf := g_conf m; bc_ftarget := fields_target (g_tgt m); bc_ssig := g_src m; bc_tsig := g_tgt m |} in
-        let st0 := {| b_tab := b_tab st; b_names := b_names st; b_seen := [] |} in
+        let st0 := {| b_tab := b_tab st; b_names := b_names st; b_seen := []; b_types := [g_tgt m; g_src m] |} in
         if g_update m then
           (* convertTo *)
           let s := g_src m in let t := g_tgt m in
@@ -303,12 +309,12 @@ Section gen.
               match struct_assign f ctx (if sp then LV_DEREF else LV_LOCAL) false s' (f_PointerInner e t) st0 with
               | GOk (a, st1) =>
                 let a' := if sp then AIfNotNil a else a in
-                GOk (tt, {| b_tab := update_nth (N.to_nat id) (set_body (BUpd a')) (b_tab st1); b_names := b_names st1; b_seen := b_seen st |})
+                GOk (tt, {| b_tab := update_nth (N.to_nat id) (set_body (BUpd a') (b_types st1)) (b_tab st1); b_names := b_names st1; b_seen := b_seen st; b_types := b_types st |})
               | GDiag c => GDiag c | GPanic p => GPanic p | GFuel => GFuel
               end
         else
           match build_no_lookup f ctx LV_LOCAL (g_src m) (g_tgt m) st0 with
-          | GOk (p, st1) => GOk (tt, {| b_tab := update_nth (N.to_nat id) (set_body (BVal p)) (b_tab st1); b_names := b_names st1; b_seen := b_seen st |})
+          | GOk (p, st1) => GOk (tt, {| b_tab := update_nth (N.to_nat id) (set_body (BVal p) (b_types st1)) (b_tab st1); b_names := b_names st1; b_seen := b_seen st; b_types := b_types st |})
           | GDiag c => GDiag c | GPanic p => GPanic p | GFuel => GFuel
           end
       end
@@ -331,16 +337,16 @@ Section gen.
          | 1 => ret PShare
          | 2 => fail D_UNMODELLED
          | 3 => let! p := build f ctx srcvar s (f_PointerInner e t) in ret (PRef false p)
-         | 4 => let! a := assign_no_lookup f ctx srcvar false s t in ret (POfAssign t a)
-         | 5 => let! a := assign_no_lookup f ctx srcvar false s t in ret (POfAssign t a)
+         | 4 => let! _ := note_ty t in let! a := assign_no_lookup f ctx srcvar false s t in ret (POfAssign t a)
+         | 5 => let! _ := note_ty t in let! a := assign_no_lookup f ctx srcvar false s t in ret (POfAssign t a)
          | 6 => let! p := build f ctx srcvar s (f_PointerInner e t) in ret (PRef (aliasing srcvar p) p)
-         | 7 => ret PId
+         | 7 => if f_Named e t || f_Named e s then (let! _ := note_ty t in ret PId) else ret PId
          | 8 => if negb (f_Named e s) && negb (f_Named e t) && match struct_fields e s, struct_fields e t with [], [] => true | _, _ => false end
                 then ret PId
-                else let! a := struct_assign f ctx srcvar false s t in ret (POfAssign t a)
-         | 9 => let! a := assign_no_lookup f ctx srcvar false s t in
+                else let! _ := note_ty t in let! a := struct_assign f ctx srcvar false s t in ret (POfAssign t a)
+         | 9 => let! _ := note_ty t in let! a := assign_no_lookup f ctx srcvar false s t in
                 ret (if f_ListFixed e s then PMakeList (f_ListInner e t) a else POfAssign t a)
-         | _ => let! a := assign_no_lookup f ctx srcvar false s t in ret (POfAssign t a)
+         | _ => let! _ := note_ty t in let! a := assign_no_lookup f ctx srcvar false s t in ret (POfAssign t a)
          end) st
       end
     end
@@ -359,9 +365,10 @@ Section gen.
          | 4 => let! p := build f ctx LV_DEREF (f_PointerInner e s) (f_PointerInner e t) in ret (APtr p)
          | 5 => let! p := build f ctx LV_DEREF (f_PointerInner e s) t in ret (ASrcPtr p)
          | 8 => struct_assign f ctx srcvar is_update s t
-         | 9 => let! a := assign f ctx false (lv_elem (negb (f_ListFixed e s)) srcvar) false (f_ListInner e s) (f_ListInner e t) in
+         | 9 => let! _ := (if f_ListFixed e s then ret tt else note_ty t) in
+                let! a := assign f ctx false (lv_elem (negb (f_ListFixed e s)) srcvar) false (f_ListInner e s) (f_ListInner e t) in
                 ret (AList (f_ListFixed e s) (f_ListInner e t) a)
-         | 10 => let! k := build f ctx LV_LOCAL (f_MapKey e s) (f_MapKey e t) in
+         | 10 => let! _ := note_ty t in let! k := build f ctx LV_LOCAL (f_MapKey e s) (f_MapKey e t) in
                  let! v := build f ctx LV_LOCAL (f_MapValue e s) (f_MapValue e t) in
                  ret (AMap k v)
          | _ => (* AssignByBuild *) let! p := build_no_lookup f ctx srcvar s t in ret (ASet p)
@@ -424,9 +431,10 @@ Section gen.
                match sel_res with
                | GOk None => fields r defined' (FSkip :: acc) st
                | GOk (Some (sel, ns, lv)) =>
-                 match assign f ctx false lv false ns fty st with
+                 let guard := x_shouldCheckAgainstZero e conf ns fty is_update false in
+                 let noted := (match sel with SelPath _ WNone | SelWhole => [] | _ => [ns] end) ++ (if guard && zero_renders ns then [ns] else []) in
+                 match assign f ctx false lv false ns fty {| b_tab := b_tab st; b_names := b_names st; b_seen := b_seen st; b_types := noted ++ b_types st |} with
                  | GOk (a, st') =>
-                   let guard := x_shouldCheckAgainstZero e conf ns fty is_update false in
                    fields r defined' (FAssign sel guard a :: acc) st'
                  | GDiag c => GDiag c | GPanic p => GPanic p | GFuel => GFuel
                  end
@@ -464,7 +472,7 @@ Section gen.
     | [] => GOk st
     | id :: r =>
       if is_dirty (b_tab st) id then
-        let st1 := {| b_tab := update_nth (N.to_nat id) (set_dirty false) (b_tab st); b_names := b_names st; b_seen := [] |} in
+        let st1 := {| b_tab := update_nth (N.to_nat id) (set_dirty false) (b_tab st); b_names := b_names st; b_seen := []; b_types := [] |} in
         match build_method fuel id st1 with
         | GOk (_, st2) => dirty_pass fuel r st2
         | GDiag c => GDiag c | GPanic p => GPanic p | GFuel => GFuel
@@ -493,7 +501,7 @@ Section gen.
     | m :: r =>
       if negb (dm_update m) && has_method tab (dm_src m) (dm_tgt m) then GDiag D_OVERLAP_SIGNATURE
       else register_all r (tab ++ [ {| g_name := dm_name m; g_src := dm_src m; g_tgt := dm_tgt m; g_explicit := true; g_dirty := true;
-                                       g_update := dm_update m; g_conf := dm_conf m; g_origin := []; g_body := None |} ])
+                                       g_update := dm_update m; g_conf := dm_conf m; g_origin := []; g_body := None; g_types := [] |} ])
     end.
 
   (* validateMethods: field settings only on struct / struct pointer targets (update methods are not in Exact) *)
@@ -508,7 +516,7 @@ Section gen.
     match register_all ms [] with
     | GOk tab =>
       if negb (validate tab) then GDiag D_FIELD_SETTING_TARGET
-      else match build_all GEN_PASSES GEN_FUEL {| b_tab := tab; b_names := [s2r "c"%string]; b_seen := [] |} with
+      else match build_all GEN_PASSES GEN_FUEL {| b_tab := tab; b_names := [s2r "c"%string]; b_seen := []; b_types := [] |} with
            | GOk st => GOk (b_tab st)
            | GDiag c => GDiag c | GPanic s => GPanic s | GFuel => GFuel
            end
